@@ -53,6 +53,63 @@ def gen_cases(t, sd):
     return cases
 
 
+def gen_long_cases(rng, n):
+    out = []
+    for k in range(n):
+        m = rng.randint(260, 420)
+        x = [rng.choice([8, 10, 12]) for _ in range(m)]
+        if k % 2 == 0:
+            x[rng.randint(0, 5)] = 16                  # an early peak, never regained for more than a trading year ...
+            if k % 4 == 0:
+                x[-rng.randint(1, 3)] = 16             # ... or regained only at the very end
+        else:
+            for _ in range(rng.randint(1, 4)):
+                x[rng.randrange(m)] = 16
+        out.append((rng.choice(STARTS), x))
+    return out
+
+
+def confront_long(case, res):
+    """res = [max drawdown, duration, last drawdown, last cumulative return] from TLC."""
+    import warnings
+    import numpy as np
+    import pandas as pd
+    from qstrader.statistics import performance as perf
+    from qstrader.statistics.json_statistics import JSONStatistics
+    from qstrader.statistics.tearsheet import TearsheetStatistics
+    start, x = case
+    maxdd, dur, lastdd, lastcum = res
+    days = []
+    d = start
+    while len(days) < len(x):
+        if (d + 3) % 7 <= 4:
+            days.append(d)
+        d += 1
+    idx = pd.to_datetime(pd.Index(pd.DatetimeIndex([ts(dd * 1440).tz_localize(None) for dd in days]).date))
+    df = pd.DataFrame({"Equity": [float(v) for v in x]}, index=idx)
+    out = []
+    with warnings.catch_warnings():
+        warnings.simplefilter("ignore")
+        rets = df["Equity"].pct_change().fillna(0.0)
+        cum = np.exp(np.log(1 + rets).cumsum())
+        dd_s, dd_max, dd_dur = perf.create_drawdowns(cum)
+        if not close(float(dd_max), fr(maxdd)):
+            out.append(("max_drawdown", "max drawdown %r, expected %s" % (float(dd_max), fr(maxdd))))
+        if not close(float(dd_s.iloc[-1]), fr(lastdd)):
+            out.append(("drawdown", "last drawdown %r, expected %s" % (float(dd_s.iloc[-1]), fr(lastdd))))
+        if not any(0 < abs(float(v)) < 1e-9 for v in dd_s) and int(dd_dur) != dur:
+            out.append(("duration", "duration %s, expected %s" % (dd_dur, dur)))
+        if not close(float(cum.iloc[-1]), fr(lastcum)):
+            out.append(("cum_returns", "last cumulative return %r, expected %s" % (float(cum.iloc[-1]), fr(lastcum))))
+        tear = TearsheetStatistics(df.copy()).get_results(df.copy())
+        alloc = pd.DataFrame({"A": [0.5] * len(x)}, index=df.index)
+        js = JSONStatistics(df.copy(), alloc).statistics["strategy"]
+        for name, rep_ in (("tearsheet", tear), ("JSON", js)):
+            if not close(float(rep_["max_drawdown"]), fr(maxdd)):
+                out.append(("max_drawdown", "%s max drawdown %r, expected %s" % (name, float(rep_["max_drawdown"]), fr(maxdd))))
+    return out
+
+
 def cases_module(cases):
     body = ",\n".join("<< %d, << %s >> >>" % (s, ", ".join(str(v) for v in x)) for s, x in cases)
     return "---- MODULE StatsCases ----\nEXTENDS Integers\nCases == <<\n%s\n>>\n====\n" % body
@@ -323,15 +380,21 @@ def run(prop, replay_file=None):
         "duration is required where no reported element is a non-zero value below 1e-9 (an exact recovery computed through exp(sum(log)))",
     ]
     rng = random.Random(sd)
+    replay_long = None
     if replay_file:
         c = json.load(open(replay_file))["case"]
         cases = [(c[0], c[1])]
+        if len(c[1]) > 40:                      # a long curve: only the drawdown part of the specification applies
+            replay_long, cases = [(c[0], c[1])], [(18263, [3, 1, 3])]
     else:
         cases = gen_cases(t, sd)
     w = tlc.scratch()
     results = {}
+    long_results = {}
+    long_cases = []
     try:
         tlc.stage_all(w)
+        rng_long = random.Random(sd * 977 + 5)
         def evaluate(lo, hi):
             """TLC on cases[lo:hi]; a chunk in which some curve overflows TLC's 32-bit integers is split until
             the offending curves are isolated - those are skipped (counted in the evidence), never guessed."""
@@ -368,6 +431,29 @@ def run(prop, replay_file=None):
 
         for k in range(0, len(cases), 2500):
             evaluate(k, min(len(cases), k + 2500))
+        # long curves (hundreds of observations on a handful of levels): the running maximum reaches back over the WHOLE
+        # history - a peak more than a trading year ago still counts.  TLC evaluates the drawdown part of Stats.tla only.
+        long_cases = replay_long if replay_file else gen_long_cases(rng_long, 10 if t == "quick" else 120)
+        long_cases = long_cases or []
+        with open(os.path.join(w, "StatsCases.tla"), "w") as fh:
+            fh.write(cases_module(long_cases))
+        with open(os.path.join(w, "sl.cfg"), "w") as fh:
+            fh.write("SPECIFICATION Spec\nCONSTANT HWM_SEEDS_FIRST = TRUE\nINVARIANT InvDrawdowns\nINVARIANT InvCum\nCHECK_DEADLOCK FALSE\n")
+        try:
+            if not long_cases:
+                raise StopIteration
+            rl = tlc.run(w, "MC_StatsLong", "sl.cfg", workers=8, timeout=3000, stack="768m")
+            rep.add_mc(rl, "MC_StatsLong(%d curves of 260-420 observations)" % len(long_cases))
+            if not rl.ok:
+                rep.machinery.append("Stats.tla violates %s on a long curve (spec error)" % rl.violated)
+            else:
+                from .engine_clock import parse_tagged
+                for v in parse_tagged(rl.out, "L"):
+                    long_results[v[0] - 1] = v[1:]
+        except StopIteration:
+            pass
+        except tlc.TLCError as e:
+            rep.machinery.append("TLC failed on the long curves: %s" % str(e)[-1200:])
         # spec sensitivity: with the loop as originally written TLC itself must find the defect
         with open(os.path.join(w, "StatsCases.tla"), "w") as fh:
             fh.write(cases_module([(18624, [4, 3, 2, 3])]))
@@ -379,6 +465,14 @@ def run(prop, replay_file=None):
             rep.machinery.append("sensitivity: TLC did not reject the zero-seeded high-water mark")
     finally:
         shutil.rmtree(w, ignore_errors=True)
+    for k, lc in enumerate(long_cases):
+        if k not in long_results:
+            continue
+        rep.cov["evaluations"] += 1
+        for what, detail in confront_long(lc, long_results[k]):
+            rep.violation("long-curve|" + what, "%s: %s; equity of %d observations from %s, peak %s at position %d" % (
+                what, detail, len(lc[1]), ts(lc[0] * 1440).date(), max(lc[1]), lc[1].index(max(lc[1]))), dict(case=[lc[0], lc[1]], what=what, detail=detail))
+    rep.cov["long_curves"] = len(long_results)
     nontriv = set()
     import multiprocessing
     jobs = [(idx, cases[idx], results[idx], 252 if idx % 5 else 52, sd) for idx in range(len(cases)) if idx in results]
